@@ -28,6 +28,12 @@ def main():
     out, prop, name = sys.argv[1], sys.argv[2], sys.argv[3]
     checks = sys.argv[4:] or [prop]
     meta = json.load(open(os.path.join(out, "meta.json")))
+    if "demo" in meta and os.path.exists(os.path.join(out, "seed_meta.json")):
+        meta = json.load(open(os.path.join(out, "seed_meta.json")))  # a kept seed: the planter's own description
+    elif "demo" in meta:  # a kept seed of the first rounds: rebuild the run line from what was recorded
+        d = meta["demo"]
+        meta = dict(meta, demo_how_to_run="cp demo_test.go %s && go test -run %s %s %s" % (
+            d["file"], d["run"], ("-tags " + d["tags"]) if d.get("tags") else "", "-race" if d.get("race") else ""))
     how = meta.get("demo_how_to_run", "")
     m = re.findall(r"(\S*zz_\w*_test\.go)", how)
     dest = m[-1].strip("`'\"(),")
@@ -42,7 +48,7 @@ def main():
     subprocess.check_call(["git", "-C", "/repo", "worktree", "add", "-q", "--detach", scratch, "HEAD"])
     res = {"property": prop, "seed_source": out, "head": subprocess.check_output(["git", "-C", "/repo", "rev-parse", "--short", "HEAD"], text=True).strip(),
            "files_changed": meta.get("files_changed"), "what_it_breaks": meta.get("what_it_breaks"), "needs_to_manifest": meta.get("needs_to_manifest"),
-           "demo": {"file": dest, "run": runname, "tags": tags.group(1) if tags else None}, "ran": []}
+           "demo": {"file": dest, "run": runname, "tags": tags.group(1) if tags else None, "race": bool(race)}, "ran": []}
     try:
         shutil.copy(os.path.join(out, "demo_test.go"), os.path.join(scratch, dest))
         test = ["go", "test", "-vet=off", "-count=1"] + race + ["-run", runname] + (["-tags", tags.group(1)] if tags else []) + [pkg]
@@ -85,8 +91,9 @@ def finish(res, out, name, scratch):
     shutil.rmtree(scratch, ignore_errors=True)
     d = f"/verif/seeded/{name}"
     os.makedirs(d, exist_ok=True)
-    shutil.copy(os.path.join(out, "patch.diff"), d)
-    shutil.copy(os.path.join(out, "demo_test.go"), d)
+    if os.path.realpath(out) != os.path.realpath(d):
+        shutil.copy(os.path.join(out, "patch.diff"), d)
+        shutil.copy(os.path.join(out, "demo_test.go"), d)
     json.dump(res, open(os.path.join(d, "meta.json"), "w"), indent=1)
     ok = res.get("demo_passes_without_change") and res.get("demo_fails_with_change") and res.get("existing_tests_pass")
     print(name, "confirmed" if ok else "NOT-CONFIRMED", "detected_by=", res.get("detected_by"), res.get("note", ""))
